@@ -42,6 +42,9 @@ type rpCmd struct {
 
 // every command first appends its marker to the trace file $T: which commands really ran is observed, not inferred
 func (c rpCmd) text() string {
+	if c.shape == 'c' { // a command that is nothing but a template comment: it interpolates to the empty command
+		return ""
+	}
 	return "echo " + c.marker + " >>\"$T\"; " + c.body()
 }
 func (c rpCmd) body() string {
@@ -65,6 +68,9 @@ func (c rpCmd) body() string {
 func (c rpCmd) source() string {
 	if c.shape == 'i' {
 		return "echo " + c.marker + " >>\"$T\"; echo {{ .MK }}-" + c.marker
+	}
+	if c.shape == 'c' {
+		return "{{/* step " + c.marker + " is switched off */}}"
 	}
 	return c.text()
 }
@@ -214,7 +220,10 @@ func reportCmd(args []string) error {
 			nc := r.Intn(5)
 			for j := 0; j < nc; j++ {
 				marker++
-				c := rpCmd{shape: "ooeobxki"[r.Intn(8)], marker: fmt.Sprintf("m%d", marker)}
+				c := rpCmd{shape: "ooeobxkioc"[r.Intn(10)], marker: fmt.Sprintf("m%d", marker)}
+				if c.shape == 'c' && j == 0 { // the first command line of a body cannot start with {{ (the lexer reads that as a syntax error)
+					c.shape = 'o'
+				}
 				if c.shape == 'x' || c.shape == 'k' {
 					c.status = []int{1, 2, 3, 7, 42, 127, 128, 255, 1 + r.Intn(255)}[r.Intn(9)]
 					if r.Intn(3) == 0 { // most commands succeed
@@ -707,6 +716,32 @@ func reportCmd(args []string) error {
 		}
 		if len(st.Samples) < 4 && k%97 == 3 {
 			st.Samples = append(st.Samples, cs+" => "+strings.Join(outs, " ; "))
+		}
+		os.RemoveAll(home)
+	}
+	// thorough tier, implementation only: a command that is still running long after it started and then fails is a failing command
+	// (20 s: past any time limit a task runner is likely to apply silently)
+	if *tier == "thorough" && *shard == 0 {
+		home := filepath.Join(tmp, "slow")
+		proj := filepath.Join(home, "proj")
+		os.MkdirAll(proj, 0o755)
+		os.WriteFile(filepath.Join(proj, "f0.txt"), []byte("0"), 0o644)
+		os.WriteFile(filepath.Join(proj, "spokfile"), []byte("task slow(\"f0.txt\") {\n    sleep 20; exit 3\n}\n"), 0o644)
+		for _, flags := range [][]string{{"slow"}, {"--json", "slow"}} {
+			cmd := exec.Command(*spok, flags...)
+			cmd.Dir = proj
+			cmd.Env = []string{"HOME=" + home, "PATH=/usr/bin:/bin", "NO_COLOR=1"}
+			var so bytes.Buffer
+			cmd.Stdout = &so
+			err := cmd.Run()
+			st.Flags["slow-failing-command(impl only)"]++
+			if err == nil {
+				st.OracleFail["C09"]++
+				fmt.Fprintf(bo, "C09 slow-failing-command `spok %s` where the task's command is `sleep 20; exit 3`: spok exited 0 (stdout %q)\n", strings.Join(flags, " "), so.String())
+			} else if strings.Contains(so.String(), "\"skipped\":true") {
+				st.OracleFail["C09"]++
+				fmt.Fprintf(bo, "C09 slow-failing-command `spok %s`: the task is reported skipped after a run in which its command failed\n", strings.Join(flags, " "))
+			}
 		}
 		os.RemoveAll(home)
 	}
